@@ -438,6 +438,9 @@ def o_same_as(out, a, ctx):
     if a.get("strip_crc"):
         fa = [x.split(":", 3)[1][:-6] + ":" + ":".join(x.split(":", 3)[2:]) for x in fa]
         fb = [x.split(":", 3)[1][:-6] + ":" + ":".join(x.split(":", 3)[2:]) for x in fb]
+    if a.get("drop"):
+        # frames the other run returns but this one must reject (and only those)
+        fb = [x for x in fb if x.split(":", 3)[1] not in a["drop"]]
     if a.get("raw_only"):
         fa = [x.split(":")[1] for x in fa]
         fb = [x.split(":")[1] for x in fb]
@@ -1147,7 +1150,7 @@ def cases_C17(ctx):
     for _ in range(ctx.n(400, 4000)):
         # stream of valid frames, damaged-checksum frames and foreign items
         n = rng.randint(1, 6)
-        parts, fixed = [], []
+        parts, fixed, bad = [], [], []
         for _i in range(n):
             k = rng.choice(["good", "good", "badcrc", "nmea", "ubx", "big"])
             if k in ("good", "badcrc", "big"):
@@ -1155,6 +1158,7 @@ def cases_C17(ctx):
                 fixed.append(f)
                 if k == "badcrc":
                     f = f[:-3] + bytes((f[-3 + j] ^ rng.randint(1, 255)) if j == rng.randrange(3) or True else f[-3 + j] for j in range(3))
+                    bad.append(hx(f))
                 parts.append(f)
             elif k == "nmea":
                 s = gens.gen_nmea(rng, ctx.t)
@@ -1171,6 +1175,12 @@ def cases_C17(ctx):
         cs.append(case(reader_line(0, q, lab, True, True, "-", data), "noval:q%d" % q,
                        ("same_as", {"other_line": reader_line(1, q, lab, True, True, "-", dfix), "strip_crc": True,
                                     "what": "validate=0 on wrong checksums differs from validate=1 on right checksums"}), {"handler": True}))
+        # validation on: exactly the frames validation off returns, minus the wrong-checksum ones - the option
+        # decides about those frames only, not about what follows them
+        if bad:
+            cs.append(case(reader_line(1, q, lab, True, True, "-", data), "val:q%d" % q,
+                           ("same_as", {"other_line": reader_line(0, q, lab, True, True, "-", data), "drop": bad,
+                                        "what": "validate=1 returns other frames than validate=0 minus the wrong-checksum frames"}), {"handler": True}))
         # parsed off: same raw frames
         cs.append(case(reader_line(1, q, lab, False, True, "-", dfix), "noparse:q%d" % q,
                        ("same_as", {"other_line": reader_line(1, q, lab, True, True, "-", dfix), "raw_only": True,
